@@ -69,8 +69,10 @@ class TimeoutFamily:
             if opts.get('store') == 'sqlite':
                 if rng.random() < 0.2:
                     ops += [{'op': 'restart'}, {'op': 'quiesce'}]     # ... or nobody looks at it before the tick
-            elif opts.get('evict', True) and rng.random() < 0.25:
-                ops.append({'op': 'evict'})          # the process is not cached when the tick comes
+            elif opts.get('evict', True) and rng.random() < 0.35:
+                # the process is not in the cache when the tick comes: dropped by a full LRU (its instance is alive: the
+                # rules go on counting), or forgotten altogether (like after a restart: the known finding)
+                ops.append({'op': 'lru_drop', 'pid': 'p1'} if rng.random() < 0.5 else {'op': 'evict'})
             ops += [{'op': 'tick'}, {'op': 'snapshot', 'level': snap}]
         if answer_at == len(times):
             ops += [{'op': 'act', 'target': {'pid': 'p1', 'key': 'k1', 'state': 'interrupted'}, 'action': 'next'}, {'op': 'quiesce'}]
